@@ -48,7 +48,7 @@ ASSUMPTIONS = [
 ]
 
 NAV_SHAPES = [("ifbody", n, None) for n in range(5)] + [("ifbody", 3, 1), ("root", 2, None),
-                                                         ("iforelse", 2, None), ("deep", 3, 0)]
+                                                         ("iforelse", 2, None), ("iforelse", 3, None), ("iforelse", 1, None), ("deep", 3, 0)]
 
 
 class SymTree:
